@@ -60,12 +60,14 @@ pub fn run(ctx: &Ctx) -> i32 {
     }
     // the list syntax of the flag value (features.rs): empty entries are skipped, so `,stack`,
     // `stack,` and `,,stack` all switch the extension on and `,` switches nothing on
-    let flags: [&[&str]; 8] = [&[], &["-f", "stack"], &["--features", "stack"], &["--features="], &["-f", ",stack"], &["--features=stack,"], &["-f", ",,stack"], &["-f", ","]];
+    // index 8: the flag at BOTH levels (before and after the sub-command): still just "on"
+    let flags: [&[&str]; 9] = [&[], &["-f", "stack"], &["--features", "stack"], &["--features="], &["-f", ",stack"], &["--features=stack,"], &["-f", ",,stack"], &["-f", ","], &["-f", "stack"]];
     let parts = pooled(None, cases.len() * flags.len(), 1, Acc::new, |acc, k| {
         let c = &cases[k / flags.len()];
         let fi = k % flags.len();
         let flag = flags[fi];
-        let on = matches!(fi, 1 | 2 | 4 | 5 | 6);
+        let on = matches!(fi, 1 | 2 | 4 | 5 | 6 | 8);
+        let pre: &[&str] = if fi == 8 { &["-f", "stack"] } else { &[] };
         acc.eval("cli");
         let case = json!({"cli": true, "name": c.name, "source": c.text, "image": c.image, "flag": flag});
         let base = format!("k{k}");
@@ -74,7 +76,8 @@ pub fn run(ctx: &Ctx) -> i32 {
                 lace.write(&format!("{base}.asm"), t.as_bytes());
                 let src = format!("{base}.asm");
                 let dst = format!("{base}.lc3");
-                let mut a = vec!["compile", src.as_str(), dst.as_str()];
+                let mut a: Vec<&str> = pre.to_vec();
+                a.extend(["compile", src.as_str(), dst.as_str()]);
                 a.extend(flag);
                 let r = lace.run(&a, b"");
                 if r.class() == "crash" {
@@ -99,7 +102,8 @@ pub fn run(ctx: &Ctx) -> i32 {
                 (format!("{base}.lc3"), None, None)
             }
         };
-        let mut a = vec!["run", runfile.as_str(), "--minimal"];
+        let mut a: Vec<&str> = pre.to_vec();
+        a.extend(["run", runfile.as_str(), "--minimal"]);
         a.extend(flag);
         let r = lace.run(&a, b"");
         // the other ways of running the same file must behave like `run`: the bare-path form,
@@ -107,12 +111,14 @@ pub fn run(ctx: &Ctx) -> i32 {
         {
             let mut b = vec![runfile.as_str(), "--minimal"];
             b.extend(flag);
-            let bare = lace.run(&b, b"");
+            // (with the flag at both levels there is no bare form: it has one level only)
+            let bare = if fi == 8 { r.clone() } else { lace.run(&b, b"") };
             if bare.status != r.status || program_output(&bare.out()) != program_output(&r.out()) {
                 acc.violation(format!("C18/bare-path-differs-from-run/{}/{}", c.uses_ext, if on { "on" } else { "off" }), format!("`lace {} {:?}` exits {} but `lace run` exits {}", c.name, flag, bare.status, r.status), case.clone());
             }
             if c.text.is_some() {
-                let mut d = vec!["debug", runfile.as_str(), "--minimal", "--command", "quit"];
+                let mut d: Vec<&str> = pre.to_vec();
+                d.extend(["debug", runfile.as_str(), "--minimal", "--command", "quit"]);
                 d.extend(flag);
                 let dbg = lace.run(&d, b"");
                 if dbg.status != r.status || program_output(&dbg.out()) != program_output(&r.out()) {
@@ -277,7 +283,7 @@ pub fn run(ctx: &Ctx) -> i32 {
         ctx,
         acc,
         Level { category: "model_checking", bfs: None },
-        "exhaustive configuration enumeration: {no flag, -f stack, --features stack, --features=, the list forms `,stack` `stack,` `,,stack` `,`} x sources using each of push/pop/call/rets as instruction (three letter cases), in label position and as a label operand; sources and .lc3 images with raw xD words of all four sub-kinds reached at run time (and present but never reached), and programs that synthesise such a word at run time (it is not in the image); 8 seed programs without the extension - through `lace compile`, `lace run`, the bare-path form `lace FILE` and `lace debug FILE --command quit` of the real binary (the latter two must behave like `run`): without the flag the diagnostic must name the feature and opcode xD must exit with status 1 having executed only what precedes it, with it the programs assemble and run as the reference machine says. In-process: machines with different flag values one after the other in one process (both orders); a corpus of programs without the four mnemonics (E1 single statements, E2 label placements, .fill sweep) and the C03 templates without opcode xD, assembled / run under BOTH flag values and compared with the flag-independent reference. non-trivial = agreeing cases",
+        "exhaustive configuration enumeration: {no flag, -f stack, --features stack, --features=, the list forms `,stack` `stack,` `,,stack` `,`, the flag both before and after the sub-command} x sources using each of push/pop/call/rets as instruction (three letter cases), in label position and as a label operand; sources and .lc3 images with raw xD words of all four sub-kinds reached at run time (and present but never reached), and programs that synthesise such a word at run time (it is not in the image); 8 seed programs without the extension - through `lace compile`, `lace run`, the bare-path form `lace FILE` and `lace debug FILE --command quit` of the real binary (the latter two must behave like `run`): without the flag the diagnostic must name the feature and opcode xD must exit with status 1 having executed only what precedes it, with it the programs assemble and run as the reference machine says. In-process: machines with different flag values one after the other in one process (both orders); a corpus of programs without the four mnemonics (E1 single statements, E2 label placements, .fill sweep) and the C03 templates without opcode xD, assembled / run under BOTH flag values and compared with the flag-independent reference. non-trivial = agreeing cases",
         true,
         &["rejected-with-feature-diagnostic", "opcode-xD-gated-at-run-time", "extension-executes-with-flag", "corpus-image-flag-independent", "run-flag-independent"],
         &["reference image and machine are flag-independent for programs that avoid the extension"],
